@@ -23,7 +23,7 @@ func (k *Kernel) doLookPath(t *task, r *Req) {
 func (k *Kernel) doProcStart(t *task, r *Req) {
 	inv := &Invocation{Pid: len(k.procs) + 1, Task: t.id, Argv: append([]string(nil), r.Strs...),
 		Combined: r.A&2 != 0, StartSeq: k.res.Steps, StartTime: k.now}
-	p := &proc{inv: inv, stdin: append([]byte(nil), r.Data...), closed: r.A&1 != 0}
+	p := &proc{inv: inv, stdin: append([]byte(nil), r.Data...), closed: r.A&1 != 0, hasPipe: r.A&4 != 0}
 	k.procs = append(k.procs, p)
 	inv.Stdin = string(p.stdin)
 	if k.cfg.Tools == nil {
@@ -34,6 +34,9 @@ func (k *Kernel) doProcStart(t *task, r *Req) {
 	if inv.StartErr != 0 {
 		inv.EndSeq = k.res.Steps
 		p.exited = true
+		if p.hasPipe && k.openPipes > 0 {
+			k.openPipes--
+		}
 		t.pending = Rep{Status: inv.StartErr, A: int64(inv.Pid)}
 		k.trace(t, r.Op, fmt.Sprintf("p%d %s cannot start errno=%d", inv.Pid, strings.Join(inv.Argv, " "), inv.StartErr))
 		return
@@ -114,6 +117,9 @@ func (k *Kernel) procExit(pid int) {
 		return // (killed earlier; this is its scheduled exit)
 	}
 	p.exited = true
+	if p.hasPipe && k.openPipes > 0 {
+		k.openPipes--
+	}
 	p.inv.EndSeq = k.res.Steps
 	p.inv.EndTime = k.now
 	k.running--
